@@ -199,6 +199,9 @@ static int gs_out_last_input_def;       /* accepted def id at the time of the la
 static int gs_out_reg, gs_out_unreg;    /* register / unregister request commands */
 static struct urequest *gs_out_last_req;
 static int gs_out_after_dead;           /* anything sent to the output after the upstream pipe threw dead */
+static int gs_out_input_stale;          /* buffers received while the accepted definition was not the upstream pipe's current one */
+static struct uref **gs_flow_def_field;  /* where the upstream pipe keeps its current definition (set by the entry; NULL: not checked) */
+static struct uref gs_other_def;        /* stands for 'some other definition' the output accepted earlier */
 static void stub_out_input(struct upipe *upipe, struct uref *uref, struct upump **upump_p)
 {
     if (gs_ev_dead > 0) gs_out_after_dead++;
@@ -206,6 +209,12 @@ static void stub_out_input(struct upipe *upipe, struct uref *uref, struct upump 
     gs_out_last_input = uref;
     gs_out_last_input_def = gs_out_acc_id;
     if (gs_out_acc_ptr == NULL && gs_out_input_unaccepted < 1000) gs_out_input_unaccepted++;
+    if (gs_flow_def_field != NULL) {
+        struct uref *fd = *gs_flow_def_field;
+        bool current = fd != NULL && gs_out_acc_ptr != NULL &&
+                       (gs_out_acc_ptr == fd || (gs_out_acc_id >= 0 && gs_out_acc_id == vs_def_id(fd)));
+        if (!current && gs_out_input_stale < 1000) gs_out_input_stale++;
+    }
     uref_free(uref);                    /* the buffer belongs to the callee */
 }
 static int stub_out_control(struct upipe *upipe, int command, va_list args)
@@ -247,6 +256,7 @@ static void vs_out_reset(uint32_t refs)
     uchain_init(&gs_out.uchain);
     gs_out_rc.refcount = refs; gs_out_rc.cb = stub_out_dead;
     gs_out_dead = gs_out_setdef = gs_out_inputs = gs_out_input_unaccepted = gs_out_reg = gs_out_unreg = gs_out_after_dead = 0;
+    gs_out_input_stale = 0; gs_flow_def_field = NULL;
     gs_out_acc_id = -1; gs_out_acc_ptr = NULL; gs_out_last_input = NULL; gs_out_last_input_def = -1; gs_out_last_req = NULL;
 }
 static void vs_reset_more(void);
